@@ -5,12 +5,16 @@ import sys, json, os
 sys.path.insert(0, '/verif')
 from vlib import facts, mir
 out = {}
+adts = {}
 for cfg in ('all', 'default'):
     f, info = facts.extract(cfg)
+    for a in f['adts']:
+        adts[a['path']] = [[[fl['name'], mir.ty_str(mir.strip_regions(fl['ty']))] for fl in v['fields']] for v in a['variants']]
     for fn in f['fns']:
         if fn['kind'] == 'Closure' or '{closure' in fn['dp']:
             continue
         sig = '(%s) -> %s' % (', '.join(mir.ty_str(mir.strip_regions(t)) for t in (fn.get('inputs') or [])), mir.ty_str(mir.strip_regions(fn.get('output'))) if fn.get('output') else '?')
         out[fn['path']] = sig
+out['__adts__'] = adts
 json.dump(out, open('/verif/vlib/baseline_fns.json', 'w'), indent=0, sort_keys=True)
 print(len(out), 'functions')
